@@ -169,6 +169,80 @@ def h_compose(ctx: Any, base: str, rule: str, nh: int, nb: int, low: bool, valid
     ctx.cover('hand')
 
 
+def h_state_hands(ctx: Any, code: str, n: int, script: str, boards: int = 1) -> None:
+    """State.get_hand / get_up_hand / get_up_hands feed exactly the live player's known hole cards
+    (resp. up cards) and the indexed board to the hand type; folded players have no hand."""
+    import warnings
+    from harness.manual import play
+    from pokerkit.hands import Hand
+    from pokerkit.state import Mode
+    C.set_deck_order('identity')
+    warnings.simplefilter('ignore')
+    calls: list = []
+
+    class Rec(Hand):
+        low = False
+
+        def __init__(self, hole: Any, board: Any) -> None:
+            self.hole, self.board = tuple(hole), tuple(board)
+
+        @classmethod
+        def from_game(cls, hole_cards: Any, board_cards: Any = ()) -> Any:
+            h = cls(hole_cards, board_cards)
+            calls.append(h)
+            if not h.hole:
+                raise ValueError('no hole cards')
+            return h
+
+        def __eq__(self, other: Any) -> bool:
+            return isinstance(other, Rec) and len(self.hole) == len(other.hole)
+
+        def __lt__(self, other: Any) -> bool:
+            return len(self.hole) < len(other.hole)
+
+        def __hash__(self) -> int:
+            return len(self.hole)
+    cfg: dict = dict(n=n, stacks=(60,) * n, antes=1, automations=(), mode=Mode.CASH_GAME,
+                     starting_board_count=boards, hand_types=(Rec,))
+    if C.is_stud(code):
+        cfg.update(bring_in=1, small_bet=2, big_bet=4)
+    else:
+        cfg['blinds'] = (1, 2)
+        if C.uses_small_big(code):
+            cfg.update(small_bet=2, big_bet=4)
+        else:
+            cfg['min_bet'] = 2
+    st = C.make_state(code, cfg)
+    pts = list(range(400))
+    target = ctx.choice('point', 60)
+    for k, _ in enumerate(play(st, script)):
+        if k == target:
+            break
+    for i in range(n):
+        for b in range(st.board_count):
+            board = tuple(st.get_board_cards(b))
+            del calls[:]
+            h = st.get_hand(i, b, 0)
+            if not st.statuses[i]:
+                ctx.check(h is None, 'folded-player-has-a-hand')
+                continue
+            known = tuple(c for c in st.hole_cards[i] if c)
+            if known:
+                ctx.check(h is not None and h.hole == known and h.board == board, 'get_hand-feeds-wrong-cards',
+                          lambda: f'player {i} board {b}: {getattr(h, "hole", None)} {getattr(h, "board", None)} expected {known} {board}')
+            else:
+                ctx.check(h is None, 'hand-without-cards')
+            up = tuple(st.get_up_cards(i))
+            u = st.get_up_hand(i, b, 0)
+            if up:
+                ctx.check(u is not None and u.hole == up and u.board == board, 'get_up_hand-feeds-wrong-cards')
+            else:
+                ctx.check(u is None, 'up-hand-without-up-cards')
+            us = list(st.get_up_hands(b, 0))
+            ctx.check(len(us) == n and (us[i] is None) == (u is None), 'get_up_hands-inconsistent')
+    ctx.cover('done')
+
+
 def jobs(tier: str, seed: int) -> list[dict]:
     out = []
     B = 280 if tier == 'quick' else 1500
@@ -199,6 +273,9 @@ def jobs(tier: str, seed: int) -> list[dict]:
     add('omaha/1hole', ['none'], base='OmahaHoldemHand', rule='holeboard', nh=1, nb=4, low=False, validity=False)
     add('omaha/2board', ['none'], base='OmahaHoldemHand', rule='holeboard', nh=4, nb=2, low=False, validity=False, or_none=True)
     add('greek/0hole3board', ['none'], base='GreekHoldemHand', rule='board', nh=0, nb=3, low=False, validity=False)
+    for code, n, script, b in (('NT', 3, 'cfc', 1), ('PO', 2, 'cc', 2), ('F7S', 3, 'bcf', 1), ('N2L1D', 2, 'ccds', 1)):
+        out.append(dict(name=f'state-hands/{code}/n{n}', fn='h_state_hands', traced=False,
+                        params=dict(code=code, n=n, script=script, boards=b), budget_s=B, must_cover=['done']))
     if tier == 'thorough':
         for low in (False, True):
             L = f'low{int(low)}'
